@@ -532,7 +532,7 @@ func runChainEngine(a Args) *Result {
 		if f["match"] != "1" {
 			res.Mismatch = capViol(res.Mismatch, Violation{Property: "C02", Clause: "chain", Signature: "chain-model",
 				What: "the real chain differs from Chain.shardLabels / realRequest for this target: " + ans + "; real: " + it.got, Case: full, Line: lines[i]}, 3)
-			continue
+			// the comparison with plain Prometheus needs no model: it is judged all the same
 		}
 		if !it.okRef {
 			clause := "roundtrip/" + wf
